@@ -61,7 +61,7 @@ PROPS = {
     },
     'C03': {
         'contracts': [E + 'do_search', E + 'existing_data', E + 'new_data', E + 'expect_loop', SS + 'search', SR + 'search',
-                      SS + '__init__', SR + '__init__', E + '__init__',
+                      SS + '__init__', SR + '__init__', (E + '__init__', 'ctx:init'),
                       (E + 'do_search', 'ctx:exact'), (E + 'existing_data', 'ctx:exact'), (E + 'new_data', 'ctx:exact'),
                       (E + 'expect_loop', 'ctx:exact'),
                       'pexpect._async_w_await.PatternWaiter.data_received', 'pexpect._async_w_await.expect_async'],
@@ -126,11 +126,11 @@ PROPS = {
     },
     'C04': {
         'contracts': [E + 'eof', E + 'timeout', E + 'errored', E + 'existing_data', E + 'expect_loop', SS + '__init__', SR + '__init__',
-                      SB + 'expect_list', SB + 'expect_loop', SB + 'expect', SB + 'expect_exact'] + READS,
+                      SB + 'expect_list', SB + 'expect_loop', SB + 'expect', SB + 'expect_exact', SB + 'read', SB + 'readline'] + READS,
         'assumptions': [
             'spawn.read_nonblocking is used through its interface contract (data | EOF | TIMEOUT | other OSError); that a transport reports EOF again without blocking after the first EOF is not under contract here (pty: blocking isalive() inside ptyprocess, see DESIGN.md section 7 #10)',
             'str(spawn) / str(searcher) used to build the exception message are assumed total here (spawn.__str__ is not yet under contract)',
-            'expect() and expect_exact() are under contract; read(), readline() delegate to the entry points above and are not separately under contract in this check',
+            'expect(), expect_exact(), read(size <= 0) and readline() are under contract (the delimiter is the default, EOF); read(size > 0), readlines(), __iter__ delegate to the entry points above and are not separately under contract in this check',
         ],
     },
     'C05': {
@@ -219,7 +219,9 @@ PROPS = {
         ],
     },
     'C02': {
-        'contracts': [SS + '__init__', SS + 'search', SR + '__init__', SR + 'search', E + 'do_search'],
+        'contracts': [SS + '__init__', SS + 'search', SR + '__init__', SR + 'search', E + 'do_search'] +
+                     [(E + m, 'ctx:' + c) for c in ('exact', 're') for m in ('do_search', 'existing_data', 'new_data', 'expect_loop')] +
+                     [SB + 'expect_list', SB + 'expect', SB + 'expect_exact'],
         'assumptions': [
             're.Pattern.search(buffer, pos) returns None or a match with pos <= start <= end <= len(buffer); which occurrence it selects (leftmost from pos) is the re engine\'s contract',
             'str.find / bytes.find(sub, start) returns -1 or the least position >= the clamped start at which sub occurs (assumed contract, cross-checked against CPython)',
@@ -227,7 +229,7 @@ PROPS = {
     },
     'C01': {
         'contracts': [E + 'do_search', E + 'existing_data', E + 'new_data', E + 'eof', E + 'timeout', E + 'errored', E + 'expect_loop',
-                      SB + '_set_buffer', SB + 'expect_list', SB + 'expect_loop', SB + 'expect', SB + 'expect_exact'],
+                      SB + '_set_buffer', SB + 'expect_list', SB + 'expect_loop', SB + 'expect', SB + 'expect_exact', SB + 'read', SB + 'readline'],
         'assumptions': [
             'io.BytesIO/StringIO behave as (content, position) with write-at-position, read-to-end, seek, tell, getvalue (differentially tested against CPython in the thorough tier)',
             'str/bytes slicing, concatenation and len follow CPython semantics (integers mathematical)',
